@@ -108,14 +108,17 @@ def valid_int_keys(F):
 
 
 # ======================================================================== history construction
-def small_battery(model, light=False):
-    """Reads determined by the current model state (JSON ops)."""
+def small_battery(model, light=False, arrays=3):
+    """Reads determined by the current model state (JSON ops).  `arrays`: bit 1 = to_array(), bit 2 =
+    to_array(splat_internal=False) (FileArray.to_array starts a thread pool per call: ~3 ms)."""
     ops = [["mask_linear"], ["get", [[None, None, None]] * len(model.F)]]
     ops += [["has_index", i] for i in range(len(model.ext_indices))]
     if light:
         return ops
-    ops += [["to_array"], ["mask"]]
-    if model.I:
+    ops += [["mask"]]
+    if arrays & 1:
+        ops.append(["to_array"])
+    if model.I and arrays & 2:
         ops.append(["to_array_nosplat"])
     ops += [["get_from_index", i] for i, e in enumerate(model.ext_indices) if model.ext_written(e)]
     ops += [["get", k] for k in valid_int_keys(model.F)]
@@ -225,7 +228,7 @@ def build_exh_history(geom, which, tier, idx, seq, read_keys):
         hb.add(list(op))
         if which == "core" and j < len(seq) - 1:
             hb.extend(small_battery(hb.model, light=True))
-    hb.extend(small_battery(hb.model))
+    hb.extend(small_battery(hb.model, arrays=3 if (len(seq) <= 1 or idx % 3 == 0) else 0))
     if which == "core" and (len(seq) <= allkeys_len or (len(seq) == allkeys_len + 1 and idx % 5 == 0)):
         hb.extend(["get", k] for k in read_keys)
     else:
@@ -298,7 +301,7 @@ def build_random_history(rng, geom):
             hb.add(["get_from_index", rng.choice(w)] if w else ["has_index", rng.randrange(len(m.ext_indices))])
         else:
             hb.add(["reopen"])
-    hb.extend(small_battery(m))
+    hb.extend(small_battery(m, arrays=rng.choice([1, 3])))
     return hb.ops
 
 
@@ -374,11 +377,13 @@ def run_history(v, geom, ops, backends, scratch, hid, drop_old=True, plain_ctor=
     pat = M.pattern(mask)
     model = M.RefArray(S, I, mask)
     exps = []
-    written_after = {}
+    written_after, values_after = {}, {}
     for j, op in enumerate(ops):
         exps.append(apply_to_model(model, op, j))
-        if op[0] == "dump":
+        if op[0] == "dump" and exps[-1][0] == "none":
             written_after[j] = model.written_linear()
+            values_after[j] = ([M.render(model.ext_value(e)) if model.ext_written(e) else None for e in model.ext_indices],
+                               M.render_expected(model.vals, model.written))
         v.count(f"op_{op[0]}")
         v.count(f"pair:{pat}:{op[0]}")
         if exps[-1][0] == "raise":
@@ -389,7 +394,6 @@ def run_history(v, geom, ops, backends, scratch, hid, drop_old=True, plain_ctor=
     for name in backends:
         cls = reg[name]
         folder = os.path.join(scratch, f"h{hid}-{name}")
-        reopened = False
         keep = []  # old instances kept alive when drop_old is False
 
         def ctor():
@@ -398,8 +402,7 @@ def run_history(v, geom, ops, backends, scratch, hid, drop_old=True, plain_ctor=
             return cls(folder, S, I, mask)
 
         def tail():
-            return (f"/{name}/{gcls}" + ("/reopened" if reopened else "")
-                    + ("+old-instance-dropped" if reopened and drop_old and name in SLOW else ""))
+            return f"/{name}/{gcls}"
 
         def wit(j, **kw):
             d = {"backend": name, "shape": list(S), "internal_shape": list(I), "shape_mask": list(mask),
@@ -435,7 +438,6 @@ def run_history(v, geom, ops, backends, scratch, hid, drop_old=True, plain_ctor=
                         del old
                     else:
                         keep.append(old)
-                    reopened = True
                 except Exception as e:  # noqa: BLE001
                     v.bad(exc_sig(e, "reopen") + tail(), f"persist()+constructor on the same folder raised: {exc_msg(e)}",
                           **wit(j))
@@ -494,6 +496,19 @@ def run_history(v, geom, ops, backends, scratch, hid, drop_old=True, plain_ctor=
                           f"after dump{M.show_key(key)} the written elements (linear, per has_index) are {hi}, "
                           f"model expects {want}", **wit(j, got=hi, expected=want))
                     break
+                # ... or wrote the right set of elements but the wrong values (only visible on overwrites)
+                if hi == want:
+                    wantv, want_all = values_after[j]
+                    try:
+                        gotv = [M.render(arr.get_from_index(i)) if w else None for i, w in enumerate(want)]
+                        got_all = M.render(arr[(slice(None),) * len(model.F)])
+                    except Exception:  # noqa: BLE001
+                        gotv = got_all = None
+                    if gotv is not None and gotv != wantv and got_all != want_all:
+                        v.bad(f"dump:stored-values-mismatch/{name}/{gcls}/{kc}",
+                              f"after dump{M.show_key(key)} the stored elements (get_from_index per linear index) are "
+                              f"{short(gotv)}, model expects {short(wantv)}", **wit(j, got=short(gotv, 800), expected=short(wantv, 800)))
+                        break
                 continue
             # ---------------- reads
             try:
